@@ -866,10 +866,10 @@ func c19Command(r *Run, c *c19Cmd, run *ssa.Function) *c19CondWrite {
 		cw = x.conditionAppend(provs, mods)
 	} else {
 		x.annotationTables(provs, mods)
+		x.annotationMap(provs, mods)
 	}
-	if c.statusCanary == "present" {
-		x.refusals(provs)
-	}
+	x.refusals(provs)
+	x.writeOutcome(provs)
 	return cw
 }
 
@@ -1523,13 +1523,21 @@ func (x *c19Run) tableLookupV(c *icall, v ssa.Value) (lk *ssa.Lookup, lc *icall,
 // consistent reports whether the branches of the path taken before event upto (-1: all) are
 // compatible with the options' mode field holding the assumed constant.
 func (x *c19Run) consistent(p *ipath, upto int, a c19Assume) bool {
-	if !a.has {
-		return true
-	}
+	var brs []ibranch
 	for _, br := range p.branches {
 		if upto >= 0 && br.at > upto {
 			continue
 		}
+		brs = append(brs, br)
+	}
+	return x.consistentB(brs, a)
+}
+
+func (x *c19Run) consistentB(brs []ibranch, a c19Assume) bool {
+	if !a.has {
+		return true
+	}
+	for _, br := range brs {
 		bc, bv, pol := ibool(br)
 		if f := x.recvField(bc, bv); f == a.mode.field {
 			if fmt.Sprint(pol) != a.mode.val {
@@ -1771,6 +1779,89 @@ func (x *c19Run) annotationTables(provs []*c19Prov, mods *c19Mods) {
 	}
 }
 
+// annotationMap: the copy's annotation map is created only where it is known to be nil (creating
+// it otherwise drops every other annotation through the merge patch), and annotations are written
+// only where the map is known not to be nil (a copy of an object without annotations has a nil
+// map; writing into it panics before anything is sent).
+func (x *c19Run) annotationMap(provs []*c19Prov, mods *c19Mods) {
+	r, c := x.r, x.c
+	isUpd := map[ssa.Instruction]bool{}
+	for _, u := range mods.updates {
+		isUpd[u] = true
+	}
+	createOK, writeOK := true, true
+	cDetail, wDetail := "", ""
+	var cAt, wAt ssa.Instruction = x.wcall, x.wcall
+	nCreate, nWrite := 0, 0
+	for _, pv := range provs {
+		p := pv.p
+		state := 0 // 0 unknown, 1 nil, 2 not nil
+		bi := 0
+		for i := 0; i < pv.wi; i++ {
+			for bi < len(p.branches) && p.branches[bi].at <= i {
+				br := p.branches[bi]
+				bi++
+				bc, l, rg, equal, ok := ieq(br)
+				if !ok || !(iisNil(bc, l) || iisNil(bc, rg)) {
+					continue
+				}
+				o := l
+				if iisNil(bc, l) {
+					o = rg
+				}
+				rc, root, f := iaccess(bc, o)
+				if (sameIV(rc, root, pv.co, pv.O) || sameIV(rc, root, pv.cg, pv.G)) && len(f) > 0 && f[len(f)-1] == "Annotations" {
+					if equal {
+						state = 1
+					} else {
+						state = 2
+					}
+				}
+			}
+			ev := p.events[i]
+			switch y := ev.in.(type) {
+			case *ssa.Store:
+				rc, root, f := iaccess(ev.c, y.Addr)
+				if !sameIV(rc, root, pv.co, pv.O) || len(f) == 0 || f[len(f)-1] != "Annotations" {
+					continue
+				}
+				if _, vv := iunwrap(ev.c, y.Val); vv != nil {
+					if _, isMM := vv.(*ssa.MakeMap); isMM {
+						nCreate++
+						if state != 1 {
+							createOK, cAt = false, y
+							cDetail = "the annotation map of the copy is replaced by a new map on a path where it is not known to be nil: the merge patch then removes every other annotation of the object"
+						}
+						state = 2
+					}
+				}
+			case *ssa.MapUpdate:
+				if !isUpd[y] {
+					continue
+				}
+				rc, root, f := iaccess(ev.c, y.Map)
+				if _, isMM := root.(*ssa.MakeMap); isMM {
+					continue
+				}
+				if !sameIV(rc, root, pv.co, pv.O) || len(f) == 0 || f[len(f)-1] != "Annotations" {
+					continue
+				}
+				nWrite++
+				if state != 2 {
+					writeOK, wAt = false, y
+					wDetail = "an annotation is written on a path where the copy's annotation map may be nil (object without annotations): the assignment panics and nothing is sent"
+				}
+			}
+		}
+	}
+	if nCreate > 0 {
+		r.Check("C19.R2", c.label+": annotation map created only when nil", r.Prog.Pos(instrPos(cAt)), x.fn, "a new annotation map is stored into the copy only under Annotations == nil (the other annotations of the object are left alone)", createOK, cDetail)
+	}
+	if nWrite > 0 {
+		r.Check("C19.R2", c.label+": annotations written into a non-nil map", r.Prog.Pos(instrPos(wAt)), x.fn, "every annotation write on the copy is preceded, on its path, by Annotations != nil or by the creation of the map", writeOK, wDetail)
+	}
+}
+
 // conditionAppend: fail appends exactly one condition {type Canary-Failed, status True} on every
 // path to the write.
 func (x *c19Run) conditionAppend(provs []*c19Prov, mods *c19Mods) *c19CondWrite {
@@ -1894,11 +1985,19 @@ func c19CondFields(r *Run, el ssa.Value, depth int) (typ, status ssa.Value, why 
 }
 
 // refusals: R7 on every path of run (helpers expanded) that returns an error without writing.
+// Documented reasons: a Get error; the command's canary precondition; a documented annotation
+// already expressing the requested state — present with the value the command would write for the
+// mode of the path, or, for the rolling-update / freeze commands only (whose readers treat an
+// absent annotation as "off"; a canary can be paused without any annotation), absent when the
+// requested value is the "off" value. A refusal decided by a function value taken from a constant
+// table (one refusal function per mode) is analysed in that function, its parameters standing for
+// the call's arguments.
 func (x *c19Run) refusals(provs []*c19Prov) {
 	r, c := x.r, x.c
-	// the objects of the command, taken from any path to the write (they are the same static values)
 	ref := provs[0]
 	as := x.assumptions()
+	offVal, _ := r.Prog.constStr(pkgAPI, "ValueStringFalse")
+	absentIsOff := c.statusCanary == "absent"
 	type agg struct {
 		ok     bool
 		pos    token.Pos
@@ -1910,7 +2009,8 @@ func (x *c19Run) refusals(provs []*c19Prov) {
 		if p.eventIndex(x.wcall) >= 0 || p.ret == nil || len(p.ret.Results) == 0 {
 			continue
 		}
-		if iisNil(p.root, p.ret.Results[len(p.ret.Results)-1]) {
+		rcx, rvx := iunwrap(p.root, p.ret.Results[len(p.ret.Results)-1])
+		if isNilConst(rvx) {
 			continue
 		}
 		// objects on this path
@@ -1936,142 +2036,225 @@ func (x *c19Run) refusals(provs []*c19Prov) {
 		isObj := func(rc *icall, root ssa.Value) bool {
 			return pv.hasE && sameIV(rc, root, pv.ce, pv.E) || pv.G != nil && sameIV(rc, root, pv.cg, pv.G) || pv.O != nil && sameIV(rc, root, pv.co, pv.O)
 		}
-		var generic, atoms []string
+		// annotation look-up behind a value (the value, or the presence flag)
+		annLookup := func(cc *icall, vv ssa.Value, idx int) (string, bool) {
+			var lk *ssa.Lookup
+			switch y := vv.(type) {
+			case *ssa.Lookup:
+				if !y.CommaOk && idx == 0 {
+					lk = y
+				}
+			case *ssa.Extract:
+				if l2, isL := y.Tuple.(*ssa.Lookup); isL && y.Index == idx {
+					lk = l2
+				}
+			}
+			if lk == nil {
+				return "", false
+			}
+			rc, root, f := iaccess(cc, lk.X)
+			key, isC := iconstString(cc, lk.Index)
+			if !isObj(rc, root) || len(f) == 0 || f[len(f)-1] != "Annotations" || !isC {
+				return "", false
+			}
+			return key, true
+		}
 		type annEq struct {
 			c     *icall
 			key   string
 			other ssa.Value
 		}
-		var eqs []annEq
-		for _, br := range p.branches {
-			bc, l, rgt, equal, ok := ieq(br)
-			if !ok {
-				cc, bv, pol := ibool(br)
-				if ex, isEx := bv.(*ssa.Extract); isEx && ex.Index == 1 {
-					if lk, isL := ex.Tuple.(*ssa.Lookup); isL {
-						if key, isC := iconstString(cc, lk.Index); isC {
-							atoms = append(atoms, fmt.Sprintf("%s present:%v", c19Short(key), pol))
+		// classify a list of branches
+		classify := func(brs []ibranch) (generic, atoms []string, eqs []annEq, absent []string) {
+			for _, br := range brs {
+				bc, l, rgt, equal, ok := ieq(br)
+				if !ok {
+					cc, bv, pol := ibool(br)
+					cc, bv = iunwrap(cc, bv)
+					if key, isAnn := annLookup(cc, bv, 1); isAnn {
+						atoms = append(atoms, fmt.Sprintf("%s present:%v", c19Short(key), pol))
+						if !pol {
+							absent = append(absent, key)
 						}
 					}
+					continue
 				}
-				continue
-			}
-			if iisNil(bc, l) || iisNil(bc, rgt) {
-				v := l
-				if iisNil(bc, l) {
-					v = rgt
-				}
-				cv, vv := iunwrap(bc, v)
-				if call, isCall := vv.(*ssa.Call); isCall && x.gets[call] != nil {
-					if !equal {
-						generic = append(generic, "Get failed")
-					} else {
-						atoms = append(atoms, "get=ok")
+				if iisNil(bc, l) || iisNil(bc, rgt) {
+					v := l
+					if iisNil(bc, l) {
+						v = rgt
+					}
+					cv, vv := iunwrap(bc, v)
+					if call, isCall := vv.(*ssa.Call); isCall && x.gets[call] != nil {
+						if !equal {
+							generic = append(generic, "Get failed")
+						} else {
+							atoms = append(atoms, "get=ok")
+						}
+						continue
+					}
+					rc, root, f := iaccess(cv, vv)
+					switch {
+					case isObj(rc, root) && len(f) == 2 && f[0] == "Status" && f[1] == "Canary":
+						switch {
+						case equal && c.statusCanary == "present":
+							generic = append(generic, "status.canary == nil")
+						case !equal && c.statusCanary == "absent":
+							generic = append(generic, "status.canary != nil")
+						default:
+							atoms = append(atoms, fmt.Sprintf("status.canary==nil:%v", equal))
+						}
+					case isObj(rc, root) && len(f) == 3 && f[0] == "Spec" && f[1] == "Strategy" && f[2] == "Canary":
+						if equal && c.specCanary {
+							generic = append(generic, "spec.strategy.canary == nil")
+						} else {
+							atoms = append(atoms, fmt.Sprintf("spec.canary==nil:%v", equal))
+						}
+					case isObj(rc, root) && len(f) > 0 && f[len(f)-1] == "Annotations":
+						atoms = append(atoms, fmt.Sprintf("annotations==nil:%v", equal))
 					}
 					continue
 				}
-				rc, root, f := iaccess(cv, vv)
-				switch {
-				case isObj(rc, root) && len(f) == 2 && f[0] == "Status" && f[1] == "Canary":
+				for _, pr := range [][2]ssa.Value{{l, rgt}, {rgt, l}} {
+					cc, vv := iunwrap(bc, pr[0])
+					key, isAnn := annLookup(cc, vv, 0)
+					if !isAnn {
+						continue
+					}
 					if equal {
-						generic = append(generic, "status.canary == nil")
+						eqs = append(eqs, annEq{bc, key, pr[1]})
 					} else {
-						atoms = append(atoms, "status.canary=set")
+						val := "<name>"
+						if s, isS := iconstString(bc, pr[1]); isS {
+							val = s
+						}
+						atoms = append(atoms, fmt.Sprintf("%s==%s:false", c19Short(key), val))
 					}
-				case isObj(rc, root) && len(f) == 3 && f[0] == "Spec" && f[1] == "Strategy" && f[2] == "Canary":
-					if equal && c.specCanary {
-						generic = append(generic, "spec.strategy.canary == nil")
-					} else {
-						atoms = append(atoms, fmt.Sprintf("spec.canary==nil:%v", equal))
-					}
-				case isObj(rc, root) && len(f) > 0 && f[len(f)-1] == "Annotations":
-					atoms = append(atoms, fmt.Sprintf("annotations==nil:%v", equal))
 				}
+			}
+			return
+		}
+		pvv := &c19Prov{cg: pv.cg, G: pv.G, co: pv.co, O: pv.O, ce: pv.ce, E: pv.E, hasE: pv.hasE}
+		// the cases to justify: (branches, command word)
+		type kase struct {
+			brs []ibranch
+			a   c19Assume
+		}
+		var cases []kase
+		undecided := ""
+		dyn, isDyn := rvx.(*ssa.Call)
+		if isDyn && (staticCallee(&dyn.Call) != nil || dyn.Call.IsInvoke()) {
+			isDyn = false
+		}
+		for _, a := range as {
+			if !x.consistent(p, -1, a) {
 				continue
 			}
-			for _, pr := range [][2]ssa.Value{{l, rgt}, {rgt, l}} {
-				cc, vv := iunwrap(bc, pr[0])
-				var lk *ssa.Lookup
-				switch y := vv.(type) {
-				case *ssa.Lookup:
-					if !y.CommaOk {
-						lk = y
-					}
-				case *ssa.Extract:
-					if l2, isL := y.Tuple.(*ssa.Lookup); isL && y.Index == 0 {
-						lk = l2
-					}
+			if !isDyn {
+				cases = append(cases, kase{p.branches, a})
+				continue
+			}
+			// the error is the result of a call through a function value: resolve it for this mode
+			var fn *ssa.Function
+			fc, fv := iunwrap(rcx, dyn.Call.Value)
+			for i := 0; i < 6; i++ {
+				if f, ok := fv.(*ssa.Function); ok {
+					fn = f
+					break
 				}
-				if lk == nil {
+				if mc, ok := fv.(*ssa.MakeClosure); ok && len(mc.Bindings) == 0 {
+					fn, _ = mc.Fn.(*ssa.Function)
+					break
+				}
+				nc, nv, ok := ifield(fc, fv)
+				if !ok {
+					nc, nv, ok = x.structField(fc, fv, a, 0)
+				}
+				if !ok {
+					break
+				}
+				fc, fv = iunwrap(nc, nv)
+			}
+			if fn == nil || len(fn.Blocks) == 0 || len(fn.FreeVars) > 0 {
+				undecided = "the refusal is decided by a function value that cannot be resolved: " + dyn.String()
+				continue
+			}
+			at := p.eventIndex(dyn)
+			var pre []ibranch
+			for _, br := range p.branches {
+				if br.at <= at {
+					pre = append(pre, br)
+				}
+			}
+			fps, okF := enumIPaths(fn, x.inl, 2000)
+			r.paths += len(fps)
+			if !okF {
+				undecided = "path cap exceeded in " + shortFunc(fn)
+				continue
+			}
+			for _, fp := range fps {
+				if fp.ret == nil || len(fp.ret.Results) == 0 || iisNil(fp.root, fp.ret.Results[len(fp.ret.Results)-1]) {
 					continue
 				}
-				rc, root, f := iaccess(cc, lk.X)
-				key, isC := iconstString(cc, lk.Index)
-				if !isObj(rc, root) || len(f) == 0 || f[len(f)-1] != "Annotations" || !isC {
-					continue
-				}
-				if equal {
-					eqs = append(eqs, annEq{bc, key, pr[1]})
-				} else {
-					val := "<name>"
-					if s, isS := iconstString(bc, pr[1]); isS {
-						val = s
-					}
-					atoms = append(atoms, fmt.Sprintf("%s==%s:false", c19Short(key), val))
+				// the function's parameters stand for the arguments of the call
+				fp.root.parent, fp.root.site = rcx, dyn
+				brs := append(append([]ibranch{}, pre...), fp.branches...)
+				if x.consistentB(brs, a) {
+					cases = append(cases, kase{brs, a})
 				}
 			}
 		}
-		// annotation reasons, per command word compatible with the path
-		good := len(generic) > 0
-		reasons := append([]string{}, generic...)
+		if len(cases) == 0 && undecided == "" {
+			continue // no command word's mode is compatible with the branches taken: the path is infeasible
+		}
+		good := undecided == ""
+		var allReasons, allAtoms []string
 		words := ""
-		if !good {
-			good = true
-			n := 0
-			for _, a := range as {
-				if !x.consistent(p, -1, a) {
-					continue
-				}
-				n++
-				words += a.word + " "
-				want := c.tables[a.word]
-				found := false
-				for _, e := range eqs {
-					if want != nil && want[e.key] != "" && pv.G != nil && x.valueOf(&c19Prov{cg: pv.cg, G: pv.G, co: pv.co, O: pv.O, ce: pv.ce, E: pv.E, hasE: pv.hasE}, e.c, e.other, a) == want[e.key] {
-						found = true
-						val := want[e.key]
-						if val == c19CanaryRS {
-							val = "<name>"
-						}
-						reasons = append(reasons, fmt.Sprintf("annotation %s already %s", c19Short(e.key), val))
-					}
-				}
-				if !found {
-					good = false
-				}
+		for _, k := range cases {
+			generic, atoms, eqs, absent := classify(k.brs)
+			words += k.a.word + " "
+			allAtoms = append(allAtoms, atoms...)
+			if len(generic) > 0 {
+				allReasons = append(allReasons, generic...)
+				continue
 			}
-			if n == 0 {
-				good = false
-			}
+			want := c.tables[k.a.word]
+			found := false
 			for _, e := range eqs {
 				val := "<name>"
 				if s, isS := iconstString(e.c, e.other); isS {
 					val = s
 				}
-				atoms = append(atoms, fmt.Sprintf("%s==%s:true", c19Short(e.key), val))
+				if want != nil && want[e.key] != "" && pv.G != nil && x.valueOf(pvv, e.c, e.other, k.a) == want[e.key] {
+					found = true
+					allReasons = append(allReasons, fmt.Sprintf("annotation %s already %s", c19Short(e.key), map[bool]string{true: "<name>", false: want[e.key]}[want[e.key] == c19CanaryRS]))
+				} else {
+					allAtoms = append(allAtoms, fmt.Sprintf("%s==%s:true", c19Short(e.key), val))
+				}
+			}
+			if absentIsOff && want != nil {
+				for _, key := range absent {
+					if want[key] == offVal {
+						found = true
+						allReasons = append(allReasons, fmt.Sprintf("annotation %s absent (already off)", c19Short(key)))
+					}
+				}
+			}
+			if !found {
+				good = false
 			}
 		}
-		sort.Strings(reasons)
-		sort.Strings(atoms)
-		reasons, atoms = c19Uniq(reasons), c19Uniq(atoms)
+		sort.Strings(allReasons)
+		sort.Strings(allAtoms)
+		reasons, atoms := c19Uniq(allReasons), c19Uniq(allAtoms)
+		ws := c19Uniq(strings.Fields(words))
 		construct := c.label + ": refusal [" + strings.Join(reasons, "; ") + "]"
 		if !good {
-			construct = c.label + ": refusal without a documented reason [" + strings.TrimSpace(words) + " " + strings.Join(atoms, " ") + "]"
+			construct = c.label + ": refusal without a documented reason [" + strings.Join(ws, " ") + " " + strings.Join(atoms, " ") + "]"
 		}
 		a := res[construct]
 		if a == nil {
 			a = &agg{ok: good, pos: instrPos(p.events[len(p.events)-1].in)}
-			// position of the innermost return that produced the error
 			for i := len(p.events) - 1; i >= 0; i-- {
 				if rt, isR := p.events[i].in.(*ssa.Return); isR && len(rt.Results) > 0 {
 					if _, vv := iunwrap(p.events[i].c, rt.Results[len(rt.Results)-1]); !isNilConst(vv) {
@@ -2082,18 +2265,72 @@ func (x *c19Run) refusals(provs []*c19Prov) {
 				}
 			}
 			if !good {
-				a.detail = "the command returns an error here although the object was read, the canary precondition holds and no documented annotation already has the requested value; facts: " + strings.Join(atoms, " ")
+				a.detail = "the command returns an error here although the object was read, the canary precondition holds and no documented annotation already expresses the requested state; facts: " + strings.Join(atoms, " ")
+				if undecided != "" {
+					a.detail = "undecided: " + undecided
+				}
 			}
 			res[construct] = a
 			order = append(order, construct)
 		}
 	}
 	sort.Strings(order)
+	need := "an error return before the write has a documented reason: Get failed, the canary precondition is missing, or the annotation is present with the value that already expresses the requested state (never the mere absence of the annotation)"
+	if absentIsOff {
+		need = "an error return before the write has a documented reason: Get failed, an active canary, or the annotation already expresses the requested state (present with the value the command would write; absent counts as already off)"
+	}
 	for _, cst := range order {
 		a := res[cst]
-		r.Check("C19.R7", cst, r.Prog.Pos(a.pos), x.fn,
-			"an error return before the write has a documented reason: Get failed, the canary precondition is missing, or the annotation is present with the value that already expresses the requested state (never the mere absence of the annotation)", a.ok, a.detail)
+		r.Check("C19.R7", cst, r.Prog.Pos(a.pos), x.fn, need, a.ok, a.detail)
 	}
+}
+
+// writeOutcome: on the paths through the write the command's result tells what happened — nil
+// exactly when the write returned nil.
+func (x *c19Run) writeOutcome(provs []*c19Prov) {
+	r, c := x.r, x.c
+	okAll, detail := true, ""
+	var at ssa.Instruction = x.wcall
+	n := 0
+	for _, pv := range provs {
+		p := pv.p
+		if p.ret == nil || len(p.ret.Results) == 0 {
+			continue
+		}
+		n++
+		rc, rv := iunwrap(p.root, p.ret.Results[len(p.ret.Results)-1])
+		var failed *bool
+		for _, br := range p.branches {
+			if br.at <= pv.wi {
+				continue
+			}
+			bc, l, rg, equal, ok := ieq(br)
+			if !ok || !(iisNil(bc, l) || iisNil(bc, rg)) {
+				continue
+			}
+			o := l
+			if iisNil(bc, l) {
+				o = rg
+			}
+			if _, ov := iunwrap(bc, o); ov == ssa.Value(x.wcall) {
+				failed = bptr(!equal)
+			}
+		}
+		switch {
+		case rv == ssa.Value(x.wcall) && rc == pv.cw:
+			// the write's error is returned as it is
+		case failed == nil:
+			okAll, detail, at = false, "the error of the write is not tested on a path through it", p.ret
+		case *failed && isNilConst(rv):
+			okAll, detail, at = false, "a failed write is reported as success (nil returned)", p.ret
+		case !*failed && !isNilConst(rv):
+			okAll, detail, at = false, "a successful write is reported as an error", p.ret
+		}
+	}
+	if n == 0 {
+		return
+	}
+	r.Check("C19.R7", c.label+": outcome of the write", r.Prog.Pos(instrPos(at)), x.fn, "after the write the command returns nil exactly when the write returned nil (an error means the command did not act, success means it did)", okAll, detail)
 }
 
 // ---------------------------------------------------------------------------------------------
